@@ -37,14 +37,18 @@ def xcol(n):
     return [(3 * i + 1) % 4 for i in range(n)]
 
 
-def sel_forms(n):
-    """every selector form, with the parameter variants of the small scope"""
+CORE_PATTERNS = ["a", "ab", "a.*", ".*", "A|c", "zz", "a?b", "C.*|a"]
+
+
+def sel_forms(n, core=False):
+    """every selector form, with the parameter variants of the small scope
+    (core: the string selectors restricted to 8 of the patterns)"""
     S = []
     S += [["pos", i] for i in range(-n - 1, n + 1)]
     S += [["poslist", l] for l in ([], [0], [n - 1, 0], [0, 0], [-1], [n], [1, 0, 1])]
     S += [["mask", [False] * n], ["mask", [True] * n], ["mask", [i % 2 == 0 for i in range(n)]],
           ["mask", [i % 3 == 1 for i in range(n)]], ["mask", [False] * n + [True]], ["mask", [True] * max(n - 1, 0)]]
-    for p in PATTERNS:
+    for p in (CORE_PATTERNS if core else PATTERNS):
         for cnt in (None, 0, 1, -1, 2, -2, 5):
             offs = (0, 1, -1) if p in ("a", "a.*", ".*", "A") else (0,)
             for off in offs:
@@ -225,13 +229,17 @@ def impl_many(payloads, configs, timeout):
             time.sleep(3)
 
 
+VSTORED = {}
+
+
 # ---- running ----------------------------------------------------------------------
 
 def run_cases(ctx, cases, seeds, tag, keys=("obs", "ref", "fail")):
     """run every case under every (build, seed); returns (obs0, refs, fails, seed_diffs);
     keys = ("hobs", "href", "hfail") reads the results of the histories instead"""
     KO, KR, KF = keys
-    nchunk = max(1, min(vlib.NPROC, (len(cases) + 3) // 4))
+    # every (chunk, config) is one process that imports numpy and xdeps: keep chunks x configs near 3x the cores
+    nchunk = max(1, min(vlib.NPROC, (len(cases) + 3) // 4, max(2, (3 * vlib.NPROC) // (len(seeds) + 1))))
     size = (len(cases) + nchunk - 1) // nchunk
     parts = list(vlib.chunks(cases, size))
     configs = [("compiled", k) for k in seeds] + [("pure", seeds[-1])]
@@ -241,6 +249,8 @@ def run_cases(ctx, cases, seeds, tag, keys=("obs", "ref", "fail")):
     for pi, p in enumerate(parts):
         r0 = res[(pi, "compiled", seeds[0])]
         obs0 += r0[KO]; refs += r0[KR]; fails += r0[KF]
+        if KO == "vobs":
+            VSTORED.setdefault("last", []).extend(r0["vstored"])
         for (b, k) in configs[1:]:
             rk = res[(pi, b, k)]
             if rk[KO] != r0[KO]:
@@ -286,7 +296,9 @@ def build_cases(ctx, maxlen, nrand, pairs_mode):
     singles = []
     for t, al in zip(tables, alphas):
         n = len(t["idx"])
-        S = sel_forms(n) if n <= maxlen else rep_forms(n, rng) + [rand_sel(rng, n, al) for _ in range(60)]
+        # quick tier: the longest small tables (2/3 of them) get the core patterns only
+        S = (sel_forms(n, core=ctx.quick and n == maxlen) if n <= maxlen
+             else rep_forms(n, rng) + [rand_sel(rng, n, al) for _ in range(60)])
         singles.append(dict(t, queries=[{"one": s} for s in S] + [{"tup": [s]} for s in S[::7]]))
     return tables, alphas, singles
 
@@ -577,6 +589,126 @@ def shrink_multi(case, seed):
     return dict(case, multi=dict(case["multi"], steps=steps))
 
 
+# ---- value ranges on columns of any dtype ----------------------------------------------
+
+DTYPES = ["uint8", "uint16", "uint32", "uint64", "int8", "int16", "int32", "int64", "float16", "float32", "float64", "bool", "object"]
+LIMITS = {"uint8": (0, 255), "uint16": (0, 65535), "uint32": (0, 2**32 - 1), "uint64": (0, 2**64 - 1),
+          "int8": (-128, 127), "int16": (-32768, 32767), "int32": (-2**31, 2**31 - 1), "int64": (-2**63, 2**63 - 1)}
+
+
+def vnum(x):
+    """number of a JSON-encoded value"""
+    return float(x) if isinstance(x, str) else x
+
+
+def vrange_case(rng):
+    """a table with 1-2 columns of a random dtype (unsigned/signed integers of every
+    width, float16/32/64 with NaN and infinities, bool, object columns of numbers)
+    in sorted / reverse-sorted / constant / unsorted order, and value ranges with
+    bounds None / inside / NaN / +-inf / outside the dtype's range"""
+    n = rng.randint(0, 8)
+    vcols, queries = [], []
+    for ci in range(rng.choice([1, 1, 2])):
+        dt = rng.choice(DTYPES)
+        if dt in LIMITS:
+            lo_, hi_ = LIMITS[dt]
+            pool = [max(lo_, -5) + k for k in range(10)] + [lo_, hi_, hi_ - 1, lo_ + 1]
+            vals = [rng.choice(pool if rng.random() < 0.3 else pool[:10]) for _ in range(n)]
+        elif dt == "bool":
+            vals = [rng.random() < 0.5 for _ in range(n)]
+        else:
+            pool = [k / 2 for k in range(-6, 9)]
+            vals = [rng.choice(pool) for _ in range(n)]
+            if dt == "object":
+                vals = [int(v) if v == int(v) and rng.random() < 0.5 else v for v in vals]
+            for i in range(n):
+                z = rng.random()
+                if z < 0.1:
+                    vals[i] = "nan"
+                elif z < 0.17:
+                    vals[i] = rng.choice(["inf", "-inf"])
+        order = rng.choice(["sorted", "reverse", "constant", "unsorted", "unsorted"])
+        key = lambda v: (1, 0) if v == "nan" else (0, vnum(v))
+        if order == "sorted":
+            vals.sort(key=key)
+        elif order == "reverse":
+            vals.sort(key=key, reverse=True)
+        elif order == "constant" and vals:
+            vals = [vals[0]] * n
+        name = f"v{ci}"
+        vcols.append([name, dt, vals])
+        finite = [vnum(v) for v in vals if v not in ("nan", "inf", "-inf")] or [0]
+        def bound():
+            z = rng.random()
+            if z < 0.2:
+                return None
+            if z < 0.55:
+                return rng.choice(finite) if not isinstance(rng.choice(finite), bool) else int(rng.choice(finite))
+            if z < 0.7:
+                return rng.choice(finite) + rng.choice([0.5, -0.5, 1, -1])
+            if z < 0.78:
+                return "nan"
+            if z < 0.88:
+                return rng.choice(["inf", "-inf"])
+            if dt in LIMITS:
+                return rng.choice([LIMITS[dt][0] - 1, LIMITS[dt][1] + 1, LIMITS[dt][0], LIMITS[dt][1], -1, 10**20])
+            return rng.choice([-100, 100, 2, -1])
+        for _ in range(rng.randint(5, 10)):
+            lo, hi = bound(), bound()
+            if dt in ("uint64", "int64") and any(isinstance(b, float) for b in (lo, hi)) and max(abs(f) for f in finite) > 2**52:
+                continue        # a float bound against 64-bit integers beyond 2**53: float rounding, no exact semantics
+            queries.append([lo, hi, name])
+    return {"idx": [], "cols": [], "queries": [],
+            "vtable": {"idx": [rng.choice(ALPHA) for _ in range(n)], "vcols": vcols, "queries": queries}}
+
+
+def emit_vrange_file(cases, vobs, vstored):
+    """values and bounds ranked by the harness (None = NaN); the model sees the ranks"""
+    items, ids, unrep = [], [], []
+    for i, (c, ob, st) in enumerate(zip(cases, vobs, vstored)):
+        v = c["vtable"]
+        ok = True
+        for cname, dt, _ in v["vcols"]:
+            qs = [(q, o) for q, o in zip(v["queries"], ob) if q[2] == cname]
+            nums = [vnum(x) for x in st[cname]] + [vnum(b) for q, _ in qs for b in q[:2] if b is not None]
+            distinct = sorted({x for x in nums if x == x})
+            rank = lambda x: "None" if x != x else f"(Some {cz(distinct.index(x))})"
+            col = clist([rank(vnum(x)) for x in st[cname]])
+            qt = []
+            for q, o in qs:
+                if o["indices"][0] != "ok":
+                    ok = False
+                    break
+                lo = "None" if q[0] is None else f"(Some {rank(vnum(q[0]))})"
+                hi = "None" if q[1] is None else f"(Some {rank(vnum(q[1]))})"
+                qt.append(f"({lo}, {hi}, {clist([cz(x) for x in o['indices'][1]])})")
+            if not ok:
+                break
+            items.append(f"({col}, {clist(qt)})")
+            ids.append(i)
+        if not ok:
+            unrep.append(i)
+    text = ("From Coq Require Import List ZArith NArith.\nFrom XD Require Import model.Table model.TableSel run.RunTableSel.\n"
+            "Import ListNotations.\nDefinition cases : list vcase :=\n " + ";\n ".join(items).join(["[", "]"]) +
+            ".\nEval vm_compute in (vmismatches cases).\n")
+    return text, ids, unrep
+
+
+def vrange_mismatches(ctx, cases, vobs, vstored, tag):
+    per = max(1, min(300, (len(cases) + vlib.NPROC - 1) // vlib.NPROC))
+    groups = list(vlib.chunks(list(range(len(cases))), per))
+    texts, maps, mism = [], [], []
+    for g in groups:
+        text, ids, unrep = emit_vrange_file([cases[i] for i in g], [vobs[i] for i in g], [vstored[i] for i in g])
+        texts.append(text); maps.append([g[k] for k in ids]); mism += [g[k] for k in unrep]
+    for (rc, so, se), ids in zip(vlib.coq_eval_files(ctx, texts, tag), maps):
+        lst = vlib.parse_nat_list(so) if rc == 0 else None
+        if lst is None:
+            raise vlib.InfraError(f"value-range case file evaluation failed: rc={rc} {se[-800:]} {so[-300:]}")
+        mism += [ids[k] for k in lst]
+    return sorted(set(mism))
+
+
 def first_failure(cases, fails):
     """smallest failing (table, query)"""
     best = None
@@ -599,7 +731,7 @@ def run(ctx):
     maxlen = ctx.pick(4, 5)
     seeds = list(range(ctx.pick(8, 16)))
     ctx.rule = (f"every index column over the names {ALPHA} up to length {maxlen} x every selector form (positions, position lists, masks, "
-                f"{len(PATTERNS)} patterns x 7 counts x offsets, name lists, name spans, value ranges, slices, None) + "
+                f"{len(PATTERNS)} patterns ({len(CORE_PATTERNS)} of them on the length-{maxlen} tables in the quick tier) x 7 counts x offsets, name lists, name spans, value ranges, slices, None) + "
                 f"{ctx.pick(12, 400)} random tables of 6..14 rows; tuples: "
                 + ctx.pick("40 random pairs + 6 triples per table", "all pairs of 37 representative forms per table up to length 4, 120 random pairs + 6 triples otherwise")
                 + f"; PYTHONHASHSEED {seeds[0]}..{seeds[-1]} (compiled) + pure build; non-trivial = a regex/span/range/name-list or tuple "
@@ -607,7 +739,9 @@ def run(ctx):
                 "plus histories on ONE table object: 1-4 selectors (single and as tuples) evaluated, then 1-4 rounds of [edit the index "
                 "column: a cell by position / a cell by name::count<<off / the whole column; evaluate the SAME selectors again]; plus scenarios with "
                 "2-3 tables alive in one process that differ in the constructor argument regex_flags (default / IGNORECASE / 0) and in "
-                "the letter case of names, the same string selectors evaluated on each in random interleaving")
+                "the letter case of names, the same string selectors evaluated on each in random interleaving; plus tables with columns of every "
+                "dtype (uint8/16/32/64, int8/16/32/64, float16/32/64 with NaN/inf, bool, object numbers; sorted / reverse / constant / unsorted) "
+                "and value ranges with bounds None / inside / NaN / +-inf / outside the dtype's range")
     proof_ok = vlib.standard_proof_part(ctx, "props/C08.v", allowed_axioms=(), extra_targets=["run/RunTableSel.vo"])
     tables, alphas, singles = build_cases(ctx, maxlen, ctx.pick(12, 400), None)
     obs1, ref1, fail1, diff1 = run_cases(ctx, singles, seeds, "s")
@@ -639,9 +773,16 @@ def run(ctx):
     mmism = multi_mismatches(ctx, mcases, mobs, "m")
     nm = sum(len(c["multi"]["steps"]) for c in mcases)
 
+    # value ranges on columns of every dtype
+    vcases = [vrange_case(ctx.rng) for _ in range(ctx.pick(600, 10000))]
+    vobs, vref, vfail, vdiff = run_cases(ctx, vcases, hseeds[:1], "v", keys=("vobs", "vref", "vfail"))
+    vstored = VSTORED.pop("last")
+    vmism = vrange_mismatches(ctx, vcases, vobs, vstored, "v")
+    nv = sum(len(c["vtable"]["queries"]) for c in vcases)
+
     nq = sum(len(c["queries"]) for c in cases)
-    ctx.evaluations = nq * (len(seeds) + 1) + (nh + nm) * (len(hseeds) + 1)
-    ctx.traces = nq + len(hcases) + len(mcases)
+    ctx.evaluations = nq * (len(seeds) + 1) + (nh + nm) * (len(hseeds) + 1) + nv * 2
+    ctx.traces = nq + len(hcases) + len(mcases) + len(vcases)
     kinds, judged, errs = {}, 0, {}
     for c, ob, rf in zip(cases, obs, refs):
         for q, o, r in zip(c["queries"], ob, rf):
@@ -657,6 +798,8 @@ def run(ctx):
                                      "selector_kinds": kinds, "judged_by_reference_selector": judged,
                                      "outside_domain_compared_to_model_only": nq - judged, "errors_observed": errs,
                                      "hash_seeds": seeds, "builds": ["compiled", "pure"],
+                                     "value_range_tables_any_dtype": len(vcases), "value_range_queries": nv,
+                                     "value_range_dtypes": {dt: sum(1 for c in vcases for _, d2, _ in c["vtable"]["vcols"] if d2 == dt) for dt in DTYPES},
                                      "multi_table_scenarios": len(mcases), "multi_table_steps": nm,
                                      "multi_table_steps_where_flags_matter": sum(
                                          1 for c, rf in zip(mcases, mref) for (k, q), r in zip(c["multi"]["steps"], rf)
@@ -673,6 +816,11 @@ def run(ctx):
                             "" if bad is None else str(bad[3])[:300]))
     ctx.obligations.append((f"hash seeds {seeds[0]}..{seeds[-1]} and both builds give identical results", not diffs, f"{len(diffs)} differing tables"))
 
+    vbad = first_failure([dict(c, idx=c["vtable"]["idx"], queries=c["vtable"]["queries"]) for c in vcases], vfail)
+    ctx.obligations.append(("correspondence: abstract range model (ranked values, NaN = incomparable) = implementation on columns of every dtype",
+                            not vmism, f"{len(vmism)} mismatching tables"))
+    ctx.obligations.append(("oracle: lo:hi:'col' selects exactly the rows with lo <= v <= hi, in table order, for every dtype, order and bound",
+                            vbad is None, "" if vbad is None else str(vbad[3])[:300]))
     mbad = first_failure([dict(c, idx=c["multi"]["tables"][0]["idx"], queries=c["multi"]["steps"]) for c in mcases], mfail)
     ctx.obligations.append(("correspondence: model = implementation on every multi-table scenario (each table matches with its own regex_flags)",
                             not mmism, f"{len(mmism)} mismatching scenarios"))
@@ -683,7 +831,16 @@ def run(ctx):
                             not hmism, f"{len(hmism)} mismatching histories"))
     ctx.obligations.append(("oracle: after every edit of the index column the same selectors denote the rows of the CURRENT column",
                             hbad is None and not hdiff, "" if hbad is None else str(hbad[3])[:300]))
-    if bad is None and hbad is None and (mbad is not None or mdiff):
+    if bad is None and vbad is not None:
+        _, ci, qi, f = vbad
+        v = vcases[ci]["vtable"]
+        col = v["queries"][qi][2]
+        small = dict(vcases[ci], vtable=dict(v, vcols=[c for c in v["vcols"] if c[0] == col], queries=[v["queries"][qi]]))
+        r = vlib.run_impl(RUNNER, {"cases": [small]}, hashseed=hseeds[0])
+        vlib.violation(ctx, {"kind": "oracle-value-range", "what": "a value range lo:hi:'col' does not select exactly the rows with lo <= value <= hi",
+                             "case": small, "impl": r["vobs"][0], "reference_rows": r["vref"][0], "failures": r["vfail"][0],
+                             "hashseed": hseeds[0], "how_to_replay": "./check C08 --replay <this file>"})
+    elif bad is None and hbad is None and (mbad is not None or mdiff):
         note = None
         if mbad is not None:
             # state shared between tables may outlive a scenario (all scenarios of a chunk run in one
@@ -729,8 +886,11 @@ def run(ctx):
         vlib.violation(ctx, {"kind": "seed", "what": "row selection depends on the hash seed / build",
                              "case": single_case(cases[ci], qi), "config_a": ["compiled", seeds[0]], "obs_a": x,
                              "config_b": list(cfg), "obs_b": y, "hashseed": cfg[1], "build": cfg[0]})
-    elif mism or hmism or mmism or not proof_ok:
+    elif mism or hmism or mmism or vmism or not proof_ok:
         what = list(getattr(ctx, "broken", []))
+        if vmism:
+            i = vmism[0]
+            what.append(f"correspondence of value ranges broke on {len(vmism)} tables, first: {json.dumps(vcases[i]['vtable'])} impl={json.dumps(vobs[i])}")
         if mmism:
             i = mmism[0]
             what.append(f"correspondence of multi-table scenarios broke on {len(mmism)} cases, first: {json.dumps(mcases[i]['multi'])} impl={json.dumps(mobs[i])}")
@@ -778,8 +938,9 @@ def replay(ctx, data):
     outs = [vlib.run_impl(RUNNER, {"cases": [case]}, build=data.get("build", "compiled") if k else "compiled", hashseed=k) for k in seeds]
     print(json.dumps({"impl": outs[0]["obs"][0], "reference": outs[0]["ref"][0], "failures": outs[0]["fail"][0],
                       "history_impl": outs[0]["hobs"][0], "history_failures": outs[0]["hfail"][0],
-                      "multi_impl": outs[0]["mobs"][0], "multi_failures": outs[0]["mfail"][0]}, indent=1))
-    allf = [f for o in outs for f in o["fail"][0] + o["hfail"][0] + o["mfail"][0] if f]
+                      "multi_impl": outs[0]["mobs"][0], "multi_failures": outs[0]["mfail"][0],
+                      "value_range_impl": outs[0]["vobs"][0], "value_range_failures": outs[0]["vfail"][0]}, indent=1))
+    allf = [f for o in outs for f in o["fail"][0] + o["hfail"][0] + o["mfail"][0] + o["vfail"][0] if f]
     if allf:
         print("VIOLATION property=C08 replay=(given) :", allf[0])
         return 1
